@@ -27,6 +27,8 @@ import (
 	"github.com/ontio/ontology/core/store/overlaydb"
 	ctypes "github.com/ontio/ontology/core/types"
 	"github.com/ontio/ontology/smartcontract"
+	"github.com/ontio/ontology/smartcontract/service/native/ont"
+	nutils "github.com/ontio/ontology/smartcontract/service/native/utils"
 	scneovm "github.com/ontio/ontology/smartcontract/service/neovm"
 	"github.com/ontio/ontology/smartcontract/storage"
 	"github.com/ontio/ontology/vm/neovm/types"
@@ -1136,10 +1138,12 @@ func writeVmCanon(sb *strings.Builder, v types.VmValue, onPath map[interface{}]b
 // by the parent.
 
 type wreq struct {
-	Op   string `json:"op"` // ser | nat | deser | run
-	Spec *spec  `json:"spec,omitempty"`
-	Raw  []byte `json:"raw,omitempty"`
-	K    int    `json:"k,omitempty"`
+	Op   string   `json:"op"` // ser | nat | deser | run
+	Spec *spec    `json:"spec,omitempty"`
+	Raw  []byte   `json:"raw,omitempty"`
+	K    int      `json:"k,omitempty"`
+	Full bool     `json:"full,omitempty"` // run: report outcomes unabridged (for reference oracles)
+	Fund [][]byte `json:"fund,omitempty"` // run: 20-byte addresses that hold 100+i ONT in the prepared state
 }
 
 type wres struct {
@@ -1203,7 +1207,7 @@ func workerHandle(in []byte) (out []byte) {
 	case "deser":
 		doDeserialize(&rs, rq.Raw)
 	case "run":
-		runProgram(&rs, rq.Raw, rq.K)
+		runProgram(&rs, rq.Raw, rq.K, rq.Full, rq.Fund)
 	default:
 		rs.Bad = "unknown op " + rq.Op
 	}
@@ -1246,7 +1250,7 @@ var gasTable = map[string]uint64{
 // runOnce executes a NeoVM program as the entry script of an invocation in a fresh engine over a
 // fresh state in which the script itself is a deployed contract (so that it may use storage), the
 // way HandleInvokeTransaction does, and renders everything the property observes.
-func runOnce(code []byte) (out string) {
+func runOnce(code []byte, fund [][]byte) (out string) {
 	defer func() {
 		if r := recover(); r != nil {
 			out = fmt.Sprintf("PANIC %v", r)
@@ -1265,6 +1269,11 @@ func runOnce(code []byte) (out string) {
 		return "harness: deploy code: " + err.Error()
 	}
 	cache.PutContract(dc)
+	for i, a := range fund {
+		var addr common.Address
+		copy(addr[:], a)
+		cache.Put(ont.GenBalanceKey(nutils.OntContractAddress, addr), nutils.GenUInt64StorageItem(uint64(100+i)).ToArray())
+	}
 	cache.Commit()
 	pre := map[string]bool{} // entries of the prepared state (the deployed script)
 	overlay.GetWriteSet().ForEach(func(k, v []byte) { pre[hex.EncodeToString(k)+"="+hex.EncodeToString(v)] = true })
@@ -1312,11 +1321,11 @@ func runOnce(code []byte) (out string) {
 	return sb.String()
 }
 
-func runProgram(rs *wres, code []byte, k int) {
+func runProgram(rs *wres, code []byte, k int, full bool, fund [][]byte) {
 	idx := map[string]int{}
 	for i := 0; i < k; i++ {
-		o := runOnce(code)
-		if len(o) > 8192 {
+		o := runOnce(code, fund)
+		if len(o) > 8192 && !full {
 			// long outcomes (large serializations): keep the head, compare by digest
 			d := sha256.Sum256([]byte(o))
 			o = fmt.Sprintf("%s…(%d chars, sha256 %x)", o[:2048], len(o), d)
